@@ -282,7 +282,7 @@ def st_seeded(tier, for_ungapped=False):
         small = draw(st.integers(0, 2)) == 2
         case = base_case(
             draw, 5 if small else maxlen, min_len=1, strict_gap=True,
-            flavours=("free", "related") if small else ("free", "related", "xdrop", "xdrop"),
+            flavours=("free", "related") if small else ("free", "related", "xdrop", "xdrop") + (("xdrop", "xdrop") if for_ungapped else ()),
         )
         n, m = len(case["s1"]), len(case["s2"])
         if case["flavour"] != "free" and draw(st.booleans()):
@@ -292,7 +292,9 @@ def st_seeded(tier, for_ungapped=False):
         else:
             case["seed"] = [draw(st.integers(0, n - 1)), draw(st.integers(0, m - 1))]
         if case["flavour"] == "xdrop":
-            case["threshold"] = draw(st.one_of(st.integers(0, 6), st.integers(0, 6), st.sampled_from([10**4, 10**6])))
+            case["threshold"] = draw(
+                st.one_of(st.integers(0, 3 if for_ungapped else 6), st.integers(0, 6), st.sampled_from([10**4, 10**6]))
+            )
         else:
             case["threshold"] = draw(
                 st.one_of(st.integers(0, 10), st.integers(0, 60), st.sampled_from([10**4, 10**6]), st.integers(0, 10**6))
